@@ -4,7 +4,8 @@ import lib
 import gen
 import debgen
 
-EDIT = [b"\n", b"\r", b" ", b"\t", b":", b"#", b".", b"a", b"K", b"\r\n", b" .\n", b"\n\n", b"A: b\n", b" x\n", b"\xc3\xa9", b"\x00", b"-"]
+EDIT = [b"\n", b"\r", b" ", b"\t", b":", b"#", b".", b"a", b"K", b"\r\n", b" .\n", b"\n\n", b"A: b\n", b" x\n", b"\xc3\xa9", b"\x00", b"-",
+        b"\xc2\xa0", b"\xc2\x85", b"\xe2\x80\x83", b"\xe3\x80\x80", b"\xc2", b"\xa0", b"\x0b", b"\x0c"]
 
 
 def parse_paras(res):
@@ -71,9 +72,7 @@ def run(chk):
     mut = []
     for t in rng.sample(texts, min(len(texts), chk.n(600, 6000))):
         for _ in range(5):
-            m = gen.mutate(rng, t, EDIT)
-            if not debgen.has_uspace(m):
-                mut.append(m)
+            mut.append(gen.mutate(rng, t, EDIT))
     mut += [b" x\nA: b\n", b"A: 1\nA: 2\n", b"A: 1\n \nB: 2\n", b"A\n", b":\n", b"A:\n .\n a\n", b"\n\n\n", b"", b"#\n", b"A: b", b"A: b\r", b"A: b\n\r", b" \nA: b\n",
             b"A: b\n\n \nB: c\n", b"A : b\n", b"A:b:c\n", b"\tA: b\n", b"A: b\n#c\n c\n"]
     three_ways(chk, "mutations", mut)
@@ -81,9 +80,9 @@ def run(chk):
     raw = [gen.rand_bytes(rng, 30, EDIT) for _ in range(chk.n(2500, 50000))]
     raw += [gen.rand_bytes(rng, 24) for _ in range(chk.n(500, 10000))]
     raw += gen.words([b"A", b":", b" ", b"\n", b"\r", b"#", b"."], 4)
-    raw = [r for r in raw if not debgen.has_uspace(r)]
+    raw += [b"A:\xc2\xa0b\xc2\xa0\n \xe2\x80\x83c\xe2\x80\x83\n", b"\xc2\xa0A\xc2\xa0: b\n", b"A: b\n \xc2\xa0\n", b" \xc2\xa0\nA: b\n", b"A: b\n \xc2\xa0.\n"]
     three_ways(chk, "raw-bytes", raw)
-    chk.assumptions += ["inputs containing the UTF-8 encoding of a non-ASCII Unicode space (U+0085, U+00A0, U+1680, U+2000-200A, U+2028/9, U+202F, U+205F, U+3000) are outside the model (ASCII whitespace) and are not generated",
+    chk.assumptions += ["the executed reader model trims Unicode whitespace exactly as Go does (R2u); the C07 theorems are stated for the ASCII reader and transfer to it on text without non-ASCII Unicode space encodings (C07_exact_reader_agrees)",
                         "I/O errors of the underlying reader are not modelled (in-memory readers)"]
 
 
